@@ -6,11 +6,12 @@ Alphabet.  Decorator options (init, repr, eq, order, unsafe_hash, frozen, kw_onl
 + all 21 double deviations (29 option sets), thorough = all 128.  Field kinds: `x: int`, `x: object`, `x: int = 3`,
 field(default=..), field(default_factory=list), field(init=False, default=..), field(repr=False), field(compare=False),
 field(hash=False), InitVar[int] (+ __post_init__), ClassVar[int].  Families: (a) default options x ALL field lists of
-<= 2 fields (133, illegal orders included: both must reject); (b) every option set x 5 representative field lists;
+<= 2 fields (133, illegal orders included: both must reject); (b) every option set x 6 representative field lists;
 (c) every single deviation x every single-field list.  thorough adds all lists of 3 fields over 5 kinds.
 Operations on every class: construction with 11 call shapes of <= 3 arguments (positional / keyword / missing / extra /
 duplicate / unknown), repr, == (equal, unequal, foreign type), < <= > >=, hash (or TypeError) and hash equality of
-equal instances, attribute assignment (FrozenInstanceError), __match_args__, dataclasses.fields (name, init, repr,
+equal instances, for classes with >= 2 fields every operand pair over the value grid {(1,1),(1,2),(2,1),(2,2)} of the first
+two fields x < <= > >= (lexicographic ties), attribute assignment (FrozenInstanceError), __match_args__, dataclasses.fields (name, init, repr,
 compare, hash, has default, has factory; kw_only separately), asdict, astuple, replace, is_dataclass, default_factory freshness,
 __post_init__ call log.
 Oracle.  The stdlib result on the toggled text (type+repr recursively, instances mapped to their field values,
@@ -58,7 +59,7 @@ KINDS = {
 }
 KIND_LIST = list(KINDS)
 IS_INT = {'int', 'intd', 'fnoinit', 'initvar', 'classvar'}
-REPRESENTATIVE = [('int',), ('int', 'intd'), ('obj', 'fnocmp'), ('ffac', 'fnohash'), ('int', 'fnoinit')]
+REPRESENTATIVE = [('int',), ('int', 'intd'), ('obj', 'fnocmp'), ('ffac', 'fnohash'), ('int', 'fnoinit'), ('obj', 'int')]
 KINDS3 = ['int', 'obj', 'intd', 'fnocmp', 'ffac']
 
 PRELUDE = 'cimport cython\nimport typing\nimport dataclasses\nfrom vlib.support import L\n'
@@ -239,6 +240,18 @@ def _operations(cls, kinds, opts=()):
                                               if isinstance(getattr(make(a), n), list)]),
         ('defaults', 'classvar', lambda: [getattr(cls, 'f%d' % i, '<none>') for i, k in enumerate(kinds) if k == 'classvar']),
     ]
+    if len(kinds) >= 2:
+        # lexicographic ordering with ties: every operand pair over the value grid {0,1}^2 of the first two fields
+        import operator as _op
+        grid = [(0, 0), (0, 1), (1, 0), (1, 1)]
+
+        def vals(x):
+            return [_val(kinds[0], x[0]), _val(kinds[1], x[1])] + a[2:]
+        for x in grid:
+            for y in grid:
+                for oname in ('lt', 'le', 'gt', 'ge'):
+                    ops.append(('order', 'lex-%s-%d%d-%d%d' % (oname, x[0], x[1], y[0], y[1]),
+                                (lambda x=x, y=y, f=getattr(_op, oname): f(make(vals(x)), make(vals(y))))))
     return names, ops
 
 
